@@ -393,7 +393,7 @@ def task_cfg(args):
     frames['NOTIF4097'] = wire.frame(wire.NOTIFICATION, b'\x06\x02' + b'\x00' * (4097 - 21))
     base = {}
     try:
-        for ci, cfg in enumerate([{}] + CAP_CFGS + [{'peer_open': 'OPEN_MANYCAPS'}]      # (a peer without the 4-octet-AS capability changes what an UPDATE body means: not a framing matter)):
+        for ci, cfg in enumerate([{}] + CAP_CFGS + [{'peer_open': 'OPEN_MANYCAPS'}]):   # (a peer without the 4-octet-AS capability changes what an UPDATE body means: not a framing matter)
             cfg = dict(cfg)
             PEER_OPEN[0] = cfg.pop('peer_open', 'OPEN_OK')
             CFG[0] = cfg
